@@ -10,7 +10,7 @@
    with struct, error, string and *cff.PanicError values, in tasks and predicates.
    Scheduler level: a panicking job is a failing job (SchedModel: AFinish with an error);
    C12/C06 cover the worker's recovery. *)
-From CffVerif Require Import FlowSemModel FlowSemProofs.
+From CffVerif Require Import FlowSemModel FlowSemProofs FlowOpModel FlowOpProofs FlowAdequacy.
 
 Theorem C04_panic_reported :
   forall f sc tv k a, kfallback (tk f k) = false -> sc_task sc k = OPANIC ->
@@ -41,6 +41,20 @@ Theorem C04_others_unaffected :
     task_step f sc1 tv k = task_step f sc2 tv k.
 Proof. intros f sc1 sc2 tv k H1 H2. unfold task_step. rewrite H1, H2. reflexivity. Qed.
 Print Assumptions C04_others_unaffected.
+
+(* the statements above are about FlowSemModel; FlowAdequacy proves that this semantics is
+   what the generated jobs do in every execution the scheduler can produce: whatever outcome
+   it assigns to task k (at any fuel), the job of k has that outcome - result, values
+   assigned, calls with their arguments - whenever it runs, on every schedule *)
+Theorem C04_on_every_schedule :
+  forall f sc, unique_providers f -> forall n k e ef, reach f sc e -> In (FT k, ef) (xlog e) ->
+    match tresult f sc n k with
+    | RBlocked _ => True
+    | ROuts outs _ tc => je_res ef = JOk /\ je_outs ef = Some outs /\ je_calls ef = call_of k tc
+    | RFail er _ tc => je_res ef = JFail er /\ je_calls ef = call_of k tc
+    end.
+Proof. intros f sc Hu n. exact (proj1 (proj2 (sem_sound f sc Hu n))). Qed.
+Print Assumptions C04_on_every_schedule.
 
 Example C04_witness :
   let f := {| gparams := [0]; gresults := [1; 2];
